@@ -1,8 +1,10 @@
 import PytezosModel.Proofs.InterpTyping
 import PytezosModel.Proofs.InterpStep
 import PytezosModel.Proofs.InterpColl
+set_option linter.unusedSectionVars false   -- `[Mode]` is a section variable of every lemma here; some do not use it
 /-! Type soundness of the reference semantics of the modelled core (C02): rules without sub-programs. -/
 namespace Interp
+variable [Mode]
 open Typing
 
 theorem typing_addTy_eq : Typing.addTy = Spec.addTy := by funext a b; cases a <;> cases b <;> rfl
@@ -103,6 +105,7 @@ end
 end Interp
 
 namespace Interp
+variable [Mode]
 open Typing
 
 syntax "sound_val1" : tactic
@@ -252,6 +255,7 @@ end
 end Interp
 
 namespace Interp
+variable [Mode]
 open Typing
 
 /-- two operands: expose both, discard impossible top shapes -/
@@ -356,6 +360,7 @@ end Interp
 
 -- sets and maps -------------------------------------------------------------------------------------
 namespace Interp
+variable [Mode]
 open Typing
 
 section
@@ -568,6 +573,7 @@ theorem updateV_sound (a b c r : Val) (hwa : WF a) (hwb : WF b) (hwc : WF c) (h 
 end Interp
 
 namespace Interp
+variable [Mode]
 open Typing
 
 theorem andV_sound (a b r : Val) (hwa : WF a) (hwb : WF b) (h : Spec.andV a b = .ok r) :
@@ -922,7 +928,7 @@ theorem sound_APPLY (hev : Spec.step env .APPLY st = .ok st') :
     rw [stackWF_cons]
     refine ⟨?_, hw⟩
     rw [wf_lam]
-    have hx : checkVal false a ta = true := hasTy_iff.mpr ⟨hwa, hta⟩
+    have hx : checkVal Mode.strict a ta = true := hasTy_iff.mpr ⟨hwa, hta⟩
     unfold BodyTy at hwb ⊢
     rcases hwb with hb | hb
     · left; simp [typeInstr, typeSeq, hx, Typing.step, hb]
@@ -933,6 +939,7 @@ end
 end Interp
 
 namespace Interp
+variable [Mode]
 open Typing
 
 theorem pairN_sound : ∀ (n : Nat) (st : List Val) (r : Val) (st' : List Val), StackWF st →
@@ -1087,6 +1094,7 @@ end
 end Interp
 
 namespace Interp
+variable [Mode]
 open Typing
 
 /-- PUSH and LAMBDA need the static check of their literal; every other rule without sub-programs is sound as is -/
